@@ -80,3 +80,11 @@ Theorem C14_single_insertion_position `{Sig} : forall E n ks e nd1 nd2 t c w cnt
     is_vid n w' nd1 i' /\ vertex w' i' = Some (new_vertex v1 v2 t) /\ forall d, d <> i' -> vertex w' d = vertex w d.
 Proof. exact insert_vertex_position. Qed.
 Print Assumptions C14_single_insertion_position.
+
+(** Tie to the source: [insert_vertex_on_edge] -- the program of the four theorems above -- is, verbatim, the program that
+    tools/tr_kern.py regenerates from cell_insertion/vertices.rs on every run (Map2/GenKern.v). *)
+From HC Require Import Map2.GenKern Map2.GenKernLaws.
+Theorem C14_single_insertion_is_the_source `{Sig} : forall n ks e nd1 nd2 t,
+  gen_insert_vertex_on_edge n ks e nd1 nd2 t = insert_vertex_on_edge n ks e nd1 nd2 t.
+Proof. exact gen_insert_vertex_on_edge_ok. Qed.
+Print Assumptions C14_single_insertion_is_the_source.
